@@ -1,0 +1,9 @@
+//go:build !verif
+
+package gkr
+
+import "github.com/consensys/gnark/frontend"
+
+func verifTrace(string, int, ...frontend.Variable) {}
+
+func verifVerifyEntry(Circuit, []*Wire, WireAssignment, Proof) {}
